@@ -164,6 +164,10 @@ func (d *Directory) AddTimeBucket(tbk *io.TimeBucketKey, f *io.TimeBucketInfo) (
 	d.Lock()
 	defer d.Unlock()
 
+	if err = tbk.Validate(); err != nil {
+		return err
+	}
+
 	catkeySplit := tbk.GetCategories()
 	datakeySplit := tbk.GetItems()
 
@@ -216,6 +220,9 @@ func (d *Directory) AddTimeBucket(tbk *io.TimeBucketKey, f *io.TimeBucketInfo) (
 func (d *Directory) RemoveTimeBucket(tbk *io.TimeBucketKey) (err error) {
 	if d == nil {
 		return errors.New(io.GetCallerFileContext(0) + ": Directory called from is nil")
+	}
+	if err = tbk.Validate(); err != nil {
+		return err
 	}
 
 	datakeySplit := tbk.GetItems()
